@@ -109,6 +109,10 @@ Item(seq, neg, T, ns, P, j) ==
     ELSE IF InRun(seq, neg, T, ns, P, j) THEN <<>>
          ELSE <<[k |-> "p", ids |-> <<P[j]>>]>>
 
+\* some run is still open: no later event and no time-out has closed it yet
+Pending(seq, neg, T, ns) ==
+  LET P == Vis(seq) IN \E a \in 1..Len(P) : seq[P[a]] \in StartCls /\ ~Closed(seq, neg, T, ns, P, a)
+
 RECURSIVE ItemsFrom(_, _, _, _, _, _)
 ItemsFrom(seq, neg, T, ns, P, j) ==
   IF j > Len(P) THEN <<>>
@@ -275,7 +279,8 @@ ExportRec ==
       exp |-> Enc(e),
       alt |-> IF a = e THEN 0 ELSE Enc(a),
       model |-> IF out = e THEN 0 ELSE Enc(out),
-      held |-> isJoining]
+      held |-> isJoining,                                   \* the transcription still holds a run
+      pend |-> Pending(cs.seq, cs.neg, to, "pattern")]     \* the statement still allows a run to be held
 
 Export == pc = "done" => PrintT(ToJson(ExportRec))
 
